@@ -23,6 +23,17 @@ def inputs(ctx, n_gen):
         c = pipeline.prog_case(r, k)
         out.append((f"gen:prog:{k}", pipeline.HELPER.replace("{N}", "") + "\ndef main() -> None:\n" +
                     "".join("    " + l.replace("{N}", "") + "\n" for l in c["body"])))
+    # the other TLC-enumerated universes: data types / match / `?`, control-flow chains, collections / strings / closures / f-strings
+    def main_of(c):
+        return c["decls"].replace("{N}", "") + "\ndef main() -> None:\n" + "".join("    " + l.replace("{N}", "") + "\n" for l in c["body"])
+    for mod, cfg, mk, tag in (("GenData", "GenData", pipeline.data_case, "data"), ("GenCtl", "GenCtl_quick", pipeline.ctl_case, "ctl"),
+                              ("GenColl", "GenColl_2", pipeline.coll_case, "coll")):
+        g = common.tlc(ctx, mod, cfg=cfg, workers=8, timeout=3000)
+        common.require_tlc_ok(ctx, g, mod)
+        rows = g["cases"]["CASE"]
+        rows = rows if len(rows) <= n_gen else rnd.sample(rows, n_gen)
+        for k, r in enumerate(rows):
+            out.append((f"gen:{tag}:{k}", main_of(mk(r, k))))
     for f in sorted(glob.glob(os.path.join(common.VERIF, "corpus", "constructs", "*.incn"))):
         out.append(("construct:" + os.path.basename(f)[:-5], open(f, encoding="utf-8").read()))
     for f in sorted(glob.glob(os.path.join(common.VERIF, "corpus", "repo", "**", "*.incn"), recursive=True)):
